@@ -2,9 +2,11 @@ import P2sh.Driver.Util
 import P2sh.Driver.Enc
 import P2sh.Driver.OpsDrv
 import P2sh.Driver.HMapDrv
+import P2sh.Driver.LangDrv
 open P2sh.Driver
 
 def dispatch (line : String) : String :=
+  if line.startsWith "eval " then LangDrv.runEval line else
   match words line with
   | [] => "bad-op"
   | op :: args =>
